@@ -250,10 +250,17 @@ class World:
                 v.closure = fr.env
             elif isinstance(v, (StaticV, ClassMethodV)):
                 v.func.cls = cls
-                v.func.closure = fr.env
+                if getattr(v.func, 'node', None) in node.body:
+                    v.func.closure = fr.env
             elif isinstance(v, PropertyV):
-                v.fget.cls = cls
-                v.fget.closure = fr.env
+                # accessors written in the class body see the enclosing
+                # scope; accessors made elsewhere (a property factory) keep
+                # the scope they were made in
+                for acc in (v.fget, v.fset):
+                    if isinstance(acc, FuncRef):
+                        acc.cls = cls
+                        if acc.node in node.body:
+                            acc.closure = fr.env
         return cls
 
     def make_dataclass(self, interp, cls, opts, fr):
